@@ -562,3 +562,29 @@ def run(ctx):
 
 
 TABLE_ACCESSORS = GLOBALS
+
+
+def extra(tier, repo, work, insts):
+    """thorough tier: E5 witness (Sim: !Send) and E6 clippy cross-reference of the R1 / R2 inventories"""
+    if tier != "thorough":
+        return []
+    from engine.side import witnesses, clippy_sites
+    from engine.runner import Instance
+    out = witnesses("C01", repo, work)
+    sites, rc = clippy_sites(repo, work)
+    R = "C01-R8"
+    if rc != 0 and not sites:
+        out.append(Instance(R, f"{R}:clippy-run", False, "", "clippy cross-reference could not run (exit %d)" % rc, None, "clippy"))
+        return out
+    cl_types = sorted({f for f, l, k, m in sites if k == "disallowed_types"})
+    cl_meth = sorted({(f, l) for f, l, k, m in sites if k == "disallowed_methods"})
+    e1_types = sorted({i.site.rsplit(":", 1)[0] for i in insts if i.rule == "C01-R1" and i.site and ":field:" not in i.key})
+    pat = re.compile(r"SystemTime::now|Instant::now|from_os_rng|rand::rng|rand::random|Uuid::new_v4|thread::spawn")
+    e1_meth = sorted({(i.site.rsplit(":", 1)[0], int(i.site.rsplit(":", 1)[1])) for i in insts if i.rule == "C01-R2" and i.site and pat.search(i.key) and "tokio::time" not in i.key})
+    ok_t = cl_types == e1_types
+    ok_m = cl_meth == e1_meth
+    out.append(Instance(R, f"{R}:cross-reference:types", ok_t, "", f"files using std HashMap/HashSet - clippy: {cl_types}; extractor: {e1_types}" +
+                        ("" if ok_t else " - extractor-coverage-mismatch: the two inventories differ, one of them does not see part of the build"), None, "clippy"))
+    out.append(Instance(R, f"{R}:cross-reference:methods", ok_m, "", f"entropy / wall-clock call sites - clippy: {cl_meth}; extractor: {e1_meth}" +
+                        ("" if ok_m else " - extractor-coverage-mismatch"), None, "clippy"))
+    return out
